@@ -107,6 +107,27 @@ func exhaustsLinear(l, r ssa.Value, op string) bool {
 			}
 			return false
 		}
+		// len(S) - F with S the not yet written rest of the data: S = phi(param, S[F:])
+		if len(lens) == 1 && !isParam(lens[0].v) && len(phisPos) == 0 && len(neg) == 1 {
+			S, F := lens[0].v, neg[0].v
+			if phi, ok := S.(*ssa.Phi); ok {
+				init, adv := false, false
+				for _, e := range phi.Edges {
+					e = unwrap(e)
+					if isParam(e) {
+						init = true
+						continue
+					}
+					if sl, ok := e.(*ssa.Slice); ok && unwrap(sl.X) == S && sl.High == nil && sl.Low != nil {
+						if diff := linOf(sl.Low, 0).add(linForm{terms: map[symKey]int64{{F, false}: 1}}, -1); len(diff.terms) == 0 && diff.k == 0 {
+							adv = true
+						}
+					}
+				}
+				return init && adv
+			}
+			return false
+		}
 		// L - O - F
 		if len(lens) == 1 && isParam(lens[0].v) && len(phisPos) == 0 && len(neg) == 2 {
 			for i := 0; i < 2; i++ {
